@@ -234,6 +234,11 @@ def run(chk, ctx):
     # the gate is only as good as the parser's classification of identifiers: the parse-time scoping rules (shared with C11)
     from . import c11
     c11.scoping_rules(chk, P, exclude=("while-opens-no-scope",))   # that one is C01/C11's; here a while frame would be welcome (F18)
+    # ... and as the interpreter's scoping at run time: every name the parser holds in scope at a read must be bound
+    # when that read executes (a frame popped that was never pushed, a counter not set, a `let` that does not bind
+    # would let the read fall through to the device outputs) — the run-time half, shared with C01
+    from . import c01
+    c01.run(chk.only(("AUT:states-classified", "AUT:3:", "AUT:4:", "AUT:6", "AUT:7:", "TAB:FramedMap", "ORG:set-forwards", "ORG:push_frame-forwards", "ORG:pop_frame-forwards", "WHO:vars-writers", "WHO:FramedMap")), ctx)
     chk.not_decided = ["equality of random streams across runs (exempted by the property)"]
 
 
